@@ -74,7 +74,7 @@ def prove(S, name, A, B=None, timeout=30, tol=None, replay=None, signature=None,
         rec["path_assumptions"] = list(S.assumed)
     if r.status == "unsat":
         rec["status"] = DISCHARGED
-        if twin and (S.constraints or S.pathcond):
+        if twin and (S.constraints or S.pathcond or extra):
             tw = sx.satisfiable(S, extra=extra, used_polys=polys)
             rec["queries"] = 2
             rec["twin"] = tw
